@@ -900,6 +900,51 @@ fn gen_keepalive(repo: &Path, g: &mut Gen) -> R<()> {
     let on_dis = method_body(&ps, "on_disconnect", 0).ok_or_else(|| Shape(format!("{ps_rel}: fn on_disconnect not found")))?;
     let od = quote::quote!(#on_dis).to_string();
     let pubsub_per = od.contains("ConnectionStatus :: disconnected (self .");
+    // where the pub/sub wrapper fires the task's waker itself: when the budget is exhausted (the `None` arm of
+    // `….next()`, or the `else` block of a `let … = ….next() else`), after arming the next attempt, after a reconnection
+    let wake_exhaust = {
+        struct V { found: Option<bool> }
+        impl<'ast> syn::visit::Visit<'ast> for V {
+            fn visit_expr_match(&mut self, m: &'ast syn::ExprMatch) {
+                let e = &m.expr;
+                if quote::quote!(#e).to_string().ends_with(". next ()") {
+                    for a in &m.arms {
+                        let p = &a.pat;
+                        if quote::quote!(#p).to_string() == "None" { let b = &a.body; self.found = Some(quote::quote!(#b).to_string().contains("wake_by_ref")); }
+                    }
+                }
+                syn::visit::visit_expr_match(self, m);
+            }
+            fn visit_local(&mut self, l: &'ast syn::Local) {
+                if let Some(init) = &l.init {
+                    let e = &init.expr;
+                    if quote::quote!(#e).to_string().ends_with(". next ()") {
+                        if let Some((_, d)) = &init.diverge { self.found = Some(quote::quote!(#d).to_string().contains("wake_by_ref")); }
+                    }
+                }
+                syn::visit::visit_local(self, l);
+            }
+        }
+        let mut v = V { found: None };
+        syn::visit::Visit::visit_block(&mut v, on_dis);
+        v.found.ok_or_else(|| Shape(format!("{ps_rel}: on_disconnect: no `match ….next()` with a `None` arm and no `let … = ….next() else`")))?
+    };
+    let wake_arm = { let t = toks(&od); match tfind(&t, "$ . current_attempt =", 0) { Some(i) => tfind(&t, "wake_by_ref", i).is_some(), None => return shape(ps_rel, "on_disconnect: no assignment to `current_attempt`") } };
+    let prc = method_body(&ps, "poll_reconnect", 0).ok_or_else(|| Shape(format!("{ps_rel}: fn poll_reconnect not found")))?;
+    let wake_ok = {
+        struct V { found: Option<bool> }
+        impl<'ast> syn::visit::Visit<'ast> for V {
+            fn visit_arm(&mut self, a: &'ast syn::Arm) {
+                let p = &a.pat;
+                let pt = quote::quote!(#p).to_string();
+                if pt.starts_with("Poll :: Ready (Ok (") && a.guard.is_none() { let b = &a.body; self.found = Some(quote::quote!(#b).to_string().contains("wake_by_ref")); }
+                syn::visit::visit_arm(self, a);
+            }
+        }
+        let mut v = V { found: None };
+        syn::visit::Visit::visit_block(&mut v, prc);
+        v.found.ok_or_else(|| Shape(format!("{ps_rel}: poll_reconnect: no `Poll::Ready(Ok(_))` arm")))?
+    };
     // requestor: does on_reconnect start a reply reader for the new stream?
     let onr = method_body(&rq, "on_reconnect", 0).ok_or_else(|| Shape(format!("{rq_rel}: fn on_reconnect not found")))?;
     let onr_t = quote::quote!(#onr).to_string();
@@ -923,6 +968,7 @@ fn gen_keepalive(repo: &Path, g: &mut Gen) -> R<()> {
     let _ = writeln!(s, "/-- {rq_rel}: `on_reconnect` starts a reply reader for the new stream -/\ndef requestorRestartsReader : Bool := {restarts}");
     let _ = writeln!(s, "/-- {h_rel}: `is_recoverable_error` -/\ndef ioConnectionResetRecoverable : Bool := {}\ndef ioNotConnectedRecoverable : Bool := {}\ndef quicConnectionErrorRecoverable : Bool := {quic_conn}\ndef replierAlreadyBoundRecoverable : Bool := {}",
         io_arm && io_reset, io_arm && io_notconn, open_arm && bind_code);
+    let _ = writeln!(s, "/-- {ps_rel}: where the wrapper fires the task's waker itself (`cx.waker().wake_by_ref()`): when the budget is exhausted, after arming the next attempt, after a successful reconnection -/\ndef wakesOnExhaustion : Bool := {wake_exhaust}\ndef wakesAfterArmingAttempt : Bool := {wake_arm}\ndef wakesOnReconnect : Bool := {wake_ok}");
     g.emit("KeepAlive", &[rr_rel, ps_rel, h_rel, rq_rel], &s);
     Ok(())
 }
